@@ -61,6 +61,7 @@ namespace vf
       bool custom_tags = true;
       bool depth_surfaces = false;     // point-wise min/max depth of area features
       bool water = false;              // tian water content models
+      bool any_gravity_sign = false;   // gravity magnitude may be zero or negative (C03: 'arbitrary gravity magnitude')
       double hub_spread_km = 300;      // features are centred within this distance of a common hub
       bool top_truncation = true;      // slabs may have a top truncation
       bool line_model_ranges = true;   // per-model distance ranges on slab/fault models
@@ -496,7 +497,7 @@ namespace vf
           if (ch.chance(70)) w.root["potential mantle temperature"] = ch.lattice(1200, 2000, 25);
           if (ch.chance(70)) w.root["thermal expansion coefficient"] = ch.real(1e-5, 6e-5);
           if (ch.chance(70)) w.root["specific heat"] = ch.lattice(800, 1500, 50);
-          if (ch.chance(70)) { J g = J::obj(); g["model"] = "uniform"; g["magnitude"] = ch.lattice(1, 20, 0.5); w.root["gravity model"] = g; }
+          if (ch.chance(70)) { J g = J::obj(); g["model"] = "uniform"; g["magnitude"] = o.any_gravity_sign && ch.chance(30) ? ch.lattice(-20, 0, 0.5) : ch.lattice(1, 20, 0.5); w.root["gravity model"] = g; }
           if (ch.chance(50)) w.root["surface temperature"] = ch.lattice(200, 400, 10);
           if (ch.chance(40)) w.root["thermal diffusivity"] = ch.real(0.5e-6, 1.5e-6);
         }
